@@ -241,21 +241,22 @@ func capturedString(L *LState, m *pm.MatchData, str string, idx int) string {
 }
 
 func strGsubDoReplace(str string, info []replaceInfo) string {
-	offset := 0
-	buf := []byte(str)
+	// the matches are in ascending order and do not overlap: one pass
+	var sb strings.Builder
+	last := 0
 	for _, replace := range info {
-		oldlen := len(buf)
-		b1 := append([]byte(""), buf[0:offset+replace.Indicies[0]]...)
-		b2 := []byte("")
-		index2 := offset + replace.Indicies[1]
-		if index2 <= len(buf) {
-			b2 = append(b2, buf[index2:len(buf)]...)
+		if start := replace.Indicies[0]; start > last {
+			sb.WriteString(str[last:start])
 		}
-		buf = append(b1, replace.String...)
-		buf = append(buf, b2...)
-		offset += len(buf) - oldlen
+		sb.WriteString(replace.String)
+		if end := replace.Indicies[1]; end > last {
+			last = end
+		}
 	}
-	return string(buf)
+	if last < len(str) {
+		sb.WriteString(str[last:])
+	}
+	return sb.String()
 }
 
 func strGsubStr(L *LState, str string, repl string, matches []*pm.MatchData) string {
